@@ -175,6 +175,17 @@ def tt_wellformed(value, modes=None):
         if c.dt not in ('f', None):
             worse('violation', 'core %d has dtype kind %s' % (k, c.dt))
         a, n, b = c.dims
+        # a bond that is a merged PAIR of ranks (Kronecker cores of a product)
+        # is enumerated in the same order by the two cores that share it
+        if k > 0 and items[k - 1].k == 'arr' and \
+                items[k - 1].lay is not None and c.lay is not None and \
+                len(items[k - 1].lay) == 3 and len(c.lay) == 3:
+            from .layout import layouts_conflict as _lc
+            if _lc(items[k - 1].lay[2], c.lay[0]):
+                worse('violation', 'bond %d is a merged pair enumerated as '
+                      '%s (fastest first) by core %d and as %s by core %d: '
+                      'the chain pairs entry (i, j) with entry (j, i)'
+                      % (k, items[k - 1].lay[2], k - 1, c.lay[0], k))
         if prev is not None and a is not None:
             if same(prev, a):
                 pass
